@@ -3,10 +3,16 @@
   (vox_adpcm.c): 4-bit codes, two per byte (first sample in the high nibble), 49-entry step table, 12-bit
   precision (`mask = ~0 << 4`).
 
-  `encodeBlock` appends a zero sample when it is handed an odd number of samples and *counts it*
-  (`pcm_count ++`): the write call then reports one item more than it was given, and the pad sample sits in the
-  middle of the stream when more calls follow.  `vox_read_block` asks for `(len + 1) / 2` bytes and copies
-  `2 * bytes` samples, one more than requested for an odd `len` (known finding KF-VOX-ODD).
+  The codec packs two samples per byte.  A call with an odd item count leaves half a byte over: the sample is held
+  in the codec's private data (`VOX_PRIVATE.have_carry / carry`, here `Option Int`) — a writer puts it in front of
+  the next call's samples and `codec_close` encodes a last odd sample with the zero sample the encoder documents
+  (`closeCarry`); a reader delivers the held sample first in the next call (`writeBlock`, `readBlock`).
+
+  The rule before the repair of KF-VOX-ODD stays as `writeBlockOld` / `readBlockOld`: `encodeBlock` appends a zero
+  sample when it is handed an odd number of samples and *counts it* (`pcm_count ++`), so the write call reported
+  one item more than it was given and the pad sample sat in the middle of the stream when more calls followed;
+  `vox_read_block` asked for `(len + 1) / 2` bytes and copied `2 * bytes` samples, one more than requested for an
+  odd `len`.
 -/
 import SfModel.Basic
 import SfModel.BlockConv
@@ -72,9 +78,9 @@ def decBytes : St → List Byte → St × List Int
     let (s3, xs) := decBytes s2 bs
     (s3, x1 :: x2 :: xs)
 
-/-- `vox_write_block`: 512-sample pieces; an odd piece (only the last can be) gets a zero appended and counted.
-    Returns (state, bytes, `indx`). `n = xs.length`. -/
-def writeBlock : Nat → St → List Int → Nat → St × List Byte × Nat
+/-- `vox_write_block` BEFORE the repair of KF-VOX-ODD: 512-sample pieces; an odd piece (only the last can be) gets a
+    zero appended and counted.  Returns (state, bytes, `indx`). `n = xs.length`. -/
+def writeBlockOld : Nat → St → List Int → Nat → St × List Byte × Nat
   | 0, st, _, _ => (st, [], 0)
   | fuel + 1, st, xs, n =>
     if n = 0 then (st, [], 0)
@@ -84,8 +90,35 @@ def writeBlock : Nat → St → List Int → Nat → St × List Byte × Nat
       let (pc2, piece2) := if pc % 2 = 1 then (pc + 1, piece ++ [0]) else (pc, piece)
       let (s1, bs) := encPairs st piece2
       -- indx += pcm_count : with the pad counted, indx may pass len by one and the loop ends
-      let (s2, bs2, t) := writeBlock fuel s1 (xs.drop pc) (n - pc)
+      let (s2, bs2, t) := writeBlockOld fuel s1 (xs.drop pc) (n - pc)
       (s2, bs ++ bs2, pc2 + t)
+
+/-- `vox_write_block`: the sample the previous call left over (`c`) goes first, then up to 512 samples in all; an odd
+    piece gives its last sample back to the carry (half a byte: held for the next call or for `codec_close`); a piece
+    that is empty after that ends the loop without an encoder call or a write.
+    Returns (state, carry, bytes, `indx`). `n = xs.length`. -/
+def writeBlock : Nat → St → Option Int → List Int → Nat → St × Option Int × List Byte × Nat
+  | 0, st, c, _, _ => (st, c, [], 0)
+  | fuel + 1, st, c, xs, n =>
+    if n = 0 then (st, c, [], 0)
+    else
+      let pre := c.toList
+      let cnt := min (512 - pre.length) n
+      let buf := pre ++ xs.take cnt
+      let odd := (pre.length + cnt) % 2 = 1
+      let buf2 := if odd then buf.dropLast else buf
+      let c2 := if odd then buf.getLast? else none
+      if buf2 = [] then (st, c2, [], cnt)
+      else
+        let (s1, bs) := encPairs st buf2
+        let (s2, c3, bs2, t) := writeBlock fuel s1 c2 (xs.drop cnt) (n - cnt)
+        (s2, c3, bs ++ bs2, cnt + t)
+
+/-- `codec_close` of a write handle: a held sample is encoded with the zero sample `ima_oki_adpcm_encode_block` appends
+    to an odd block. Returns (state, bytes). -/
+def closeCarry (st : St) : Option Int → St × List Byte
+  | none => (st, [])
+  | some x => encPairs st [x, 0]
 
 /-- short samples of a caller value (`vox_write_s/i/f/d`) -/
 def ofCaller (c : Conv) (ty : Ty) (v : Int) : Int :=
@@ -104,22 +137,36 @@ def toCaller (c : Conv) (ty : Ty) (v : Int) : Int :=
 
 /-- staging of the wrappers: short callers in one piece, the others through `ubuf.sbuf` (4096 shorts); the loop
     ends after the first piece whose count differs from the request. Returns (state, bytes, total). -/
-def writeCall (chunk : Nat) : Nat → St → List Int → Nat → St × List Byte × Nat
+def writeCall (chunk : Nat) : Nat → St → Option Int → List Int → Nat → St × Option Int × List Byte × Nat
+  | 0, st, c, _, _ => (st, c, [], 0)
+  | fuel + 1, st, c, xs, n =>
+    if n = 0 then (st, c, [], 0)
+    else
+      let wc := if chunk = 0 then n else min chunk n
+      let (s1, c1, bs, cnt) := writeBlock (wc + 1) st c (xs.take wc) wc
+      if cnt ≠ wc then (s1, c1, bs, cnt)
+      else
+        let (s2, c2, bs2, t) := writeCall chunk fuel s1 c1 (xs.drop wc) (n - wc)
+        (s2, c2, bs ++ bs2, cnt + t)
+
+/-- the staging loop before the repair of KF-VOX-ODD (over `writeBlockOld`) -/
+def writeCallOld (chunk : Nat) : Nat → St → List Int → Nat → St × List Byte × Nat
   | 0, st, _, _ => (st, [], 0)
   | fuel + 1, st, xs, n =>
     if n = 0 then (st, [], 0)
     else
       let wc := if chunk = 0 then n else min chunk n
-      let (s1, bs, cnt) := writeBlock (wc + 1) st (xs.take wc) wc
+      let (s1, bs, cnt) := writeBlockOld (wc + 1) st (xs.take wc) wc
       if cnt ≠ wc then (s1, bs, cnt)
       else
-        let (s2, bs2, t) := writeCall chunk fuel s1 (xs.drop wc) (n - wc)
+        let (s2, bs2, t) := writeCallOld chunk fuel s1 (xs.drop wc) (n - wc)
         (s2, bs ++ bs2, cnt + t)
 
 def chunkOf (ty : Ty) : Nat := if ty = .s16 then 0 else 4096
 
-/-- `vox_read_block` over the bytes still in the file: (state, bytes left, samples copied out, `indx`) -/
-def readBlock : Nat → St → List Byte → Nat → St × List Byte × List Int × Nat
+/-- `vox_read_block` BEFORE the repair of KF-VOX-ODD, over the bytes still in the file: (state, bytes left, samples
+    copied out, `indx`) — for an odd request one sample more than asked for -/
+def readBlockOld : Nat → St → List Byte → Nat → St × List Byte × List Int × Nat
   | 0, st, bytes, _ => (st, bytes, [], 0)
   | fuel + 1, st, bytes, n =>
     if n = 0 then (st, bytes, [], 0)
@@ -130,7 +177,37 @@ def readBlock : Nat → St → List Byte → Nat → St × List Byte × List Int
       else
         let k := got.length
         let (s1, xs) := decBytes st got
-        let (s2, rest, ys, t) := readBlock fuel s1 (bytes.drop cc) (n - 2 * k)
+        let (s2, rest, ys, t) := readBlockOld fuel s1 (bytes.drop cc) (n - 2 * k)
         (s2, rest, xs ++ ys, 2 * k + t)
+
+/-- the loop of `vox_read_block`: pieces of at most 256 bytes; when the decoded piece holds one sample more than is
+    still asked for (the request was odd) that sample is held back and the loop is over.
+    Returns (state, carry, bytes left, samples copied out, their number). -/
+def readLoop : Nat → St → List Byte → Nat → St × Option Int × List Byte × List Int × Nat
+  | 0, st, bytes, _ => (st, none, bytes, [], 0)
+  | fuel + 1, st, bytes, n =>
+    if n = 0 then (st, none, bytes, [], 0)
+    else
+      let cc := if n > 512 then 256 else (n + 1) / 2
+      let got := bytes.take cc
+      if got = [] then (st, none, bytes, [], 0)
+      else
+        let k := got.length
+        let (s1, xs) := decBytes st got
+        if 2 * k > n then (s1, xs.getLast?, bytes.drop cc, xs.dropLast, 2 * k - 1)
+        else
+          let (s2, c, rest, ys, t) := readLoop fuel s1 (bytes.drop cc) (n - 2 * k)
+          (s2, c, rest, xs ++ ys, 2 * k + t)
+
+/-- `vox_read_block` over the bytes still in the file: a held sample (`c`) is delivered first -/
+def readBlock (fuel : Nat) (st : St) (c : Option Int) (bytes : List Byte) (n : Nat) :
+    St × Option Int × List Byte × List Int × Nat :=
+  match c with
+  | some x =>
+    if n = 0 then (st, c, bytes, [], 0)
+    else
+      let (s, c2, rest, ys, t) := readLoop fuel st bytes (n - 1)
+      (s, c2, rest, x :: ys, t + 1)
+  | none => readLoop fuel st bytes n
 
 end Sf.Oki
